@@ -1806,7 +1806,7 @@ class ScriptOp:
     def render(self):
         if self.name == 'kill':
             return 'kill ' + ' '.join('n%d' % h for h in self.args)
-        sig = SIG[self.name]
+        sig = sig_for(self.name, self.args)
         toks = [self.name + ('=n%d' % self.want if self.want is not None else '')]
         for i, a in enumerate(self.args):
             k = sig[i] if i < len(sig) and sig[i] != '*' else ('*' if '*' in sig else '?')
@@ -1828,7 +1828,7 @@ class ScriptOp:
 
     def resolve(self, m):
         """-> (name, want, args with Node objects); raises KeyError when a handle is dead in the model"""
-        sig = SIG[self.name]
+        sig = sig_for(self.name, self.args)
         out = []
         for i, a in enumerate(self.args):
             k = sig[i] if i < len(sig) and sig[i] != '*' else '*'
@@ -2525,11 +2525,15 @@ def parse_script(text):
             name, w = name.split('=')
             want = int(w[1:])
         sig = SIG[name]
+        if name in ('tw', 'list', 'map', 'rg', 'it') and len(tk) > 2:
+            sig = sig + SUBSIG.get((name, tk[2]), '')
         args = []
         for i, t in enumerate(tk[1:]):
             k = sig[i] if i < len(sig) and sig[i] != '*' else '*'
             if k in 'dnN':
                 args.append(None if t == '~' else int(t[1:]))
+            elif k == 'v':
+                args.append(int(t[1:]))
             elif k in 'ib':
                 args.append(int(t))
             elif k == 'w':
@@ -2617,3 +2621,931 @@ def exh_script(seq):
             stopped = exp.cls
             break
     return out, nset, stopped
+
+
+# ===================================================================================================
+#  views (property C14): live NodeLists / NamedNodeMaps, NodeIterator, TreeWalker, Range
+#  written from DOM Level 2 Traversal-Range (iterator reference node + before/after position, TreeWalker logical view,
+#  Range boundary-point fix-ups of section 2.12 and the content operations of section 2.7-2.9)
+# ===================================================================================================
+FILTER_ACCEPT, FILTER_REJECT, FILTER_SKIP = 1, 2, 3
+CHARDATA_TYPES = (TEXT, CDATA, COMMENT, PI)
+
+
+def script_filter(kind, n):
+    """mirror of ScriptFilter::acceptNode in drivers/xd_domscript.cpp"""
+    t = n.t
+    nm = n.node_name()
+    if kind == 1:
+        if t == ELEMENT and nm:
+            if nm[0] == 'a':
+                return FILTER_SKIP
+            if nm[0] == 'b':
+                return FILTER_REJECT
+        return FILTER_ACCEPT
+    if kind == 2:
+        if t in (TEXT, CDATA):
+            return FILTER_ACCEPT if n.data else FILTER_SKIP
+        if t == COMMENT:
+            return FILTER_REJECT
+        return FILTER_ACCEPT
+    if kind == 3:
+        if t == ELEMENT and nm and nm[0] == 'c':
+            return FILTER_REJECT
+        if t == ELEMENT and nm and nm[0] == 'x':
+            return FILTER_SKIP
+        return FILTER_ACCEPT
+    return FILTER_ACCEPT
+
+
+class ViewBase:
+    kind = '?'
+
+    def __init__(self, doc):
+        self.doc = doc
+
+    def before_remove(self, m, n): pass
+    def after_insert(self, m, n): pass
+    def text_changed(self, m, n, kind, off, cnt, ins): pass
+    def text_split(self, m, old, new, off): pass
+    def before_release(self, m, n): pass
+
+    def refers_to(self, n):
+        """does this view keep a pointer to n or to a node below n (releasing it would leave the view dangling)?"""
+        return False
+
+
+def _in_subtree(x, top):
+    while x is not None:
+        if x is top:
+            return True
+        x = x.tree_parent()
+    return False
+
+
+def doc_order_next(n, root, descend=True):
+    """next node in document order inside the subtree of root (None at the end)"""
+    if descend and n.kids:
+        return n.kids[0]
+    while n is not None and n is not root:
+        nx = n.next()
+        if nx is not None:
+            return nx
+        n = n.parent
+    return None
+
+
+def doc_order_prev(n, root):
+    if n is root:
+        return None
+    p = n.prev()
+    if p is None:
+        return n.parent
+    while p.kids:
+        p = p.kids[-1]
+    return p
+
+
+class ListView(ViewBase):
+    kind = 'L'
+
+    def __init__(self, doc, how, root, a=None, b=None):
+        ViewBase.__init__(self, doc)
+        self.how, self.root, self.a, self.b = how, root, a, b
+
+    def nodes(self):
+        r = self.root
+        if self.how == 'children':
+            return list(r.kids)
+        out = []
+        n = doc_order_next(r, r)
+        while n is not None:
+            if n.t == ELEMENT:
+                if self.how == 'tag':
+                    if self.a == '*' or n.name == self.a:
+                        out.append(n)
+                else:
+                    if (self.a == '*' or n.ns == self.a) and (self.b == '*' or (n.local is not None and n.local == self.b)):
+                        out.append(n)
+            n = doc_order_next(n, r)
+        return out
+
+    def refers_to(self, n):
+        return _in_subtree(self.root, n)
+
+
+class MapView(ViewBase):
+    kind = 'M'
+
+    def __init__(self, doc, el):
+        ViewBase.__init__(self, doc)
+        self.el = el
+
+    def refers_to(self, n):
+        return _in_subtree(self.el, n)
+
+
+class IterView(ViewBase):
+    kind = 'I'
+
+    def __init__(self, doc, root, show, fk):
+        ViewBase.__init__(self, doc)
+        self.root, self.show, self.fk = root, show, fk
+        self.ref = None          # reference node (None: before the first node, nothing returned yet)
+        self.after = True        # position of the iterator relative to the reference node
+        self.detached = False
+
+    def accept(self, n):
+        if not (self.show >> (n.t - 1)) & 1:
+            return False
+        return self.fk == 0 or script_filter(self.fk, n) == FILTER_ACCEPT
+
+    def before_remove(self, m, n):
+        if self.detached or self.ref is None:
+            return
+        # is the reference node inside the subtree being removed (and is that subtree inside the iterator's root)?
+        x = self.ref
+        hit = False
+        while x is not None and x is not self.root:
+            if x is n:
+                hit = True
+                break
+            x = x.parent
+        if not hit:
+            return
+        if self.after:
+            # the nearest node before the removed subtree becomes the reference node
+            self.ref = doc_order_prev(n, self.root)
+        else:
+            nx = doc_order_next(n, self.root, descend=False)
+            if nx is not None:
+                self.ref = nx
+            else:
+                self.ref = doc_order_prev(n, self.root)
+                self.after = True
+
+    def refers_to(self, n):
+        return _in_subtree(self.root, n) or (self.ref is not None and _in_subtree(self.ref, n))
+
+
+class WalkerView(ViewBase):
+    kind = 'W'
+
+    def __init__(self, doc, root, show, fk):
+        ViewBase.__init__(self, doc)
+        self.root, self.show, self.fk = root, show, fk
+        self.cur = root
+
+    def accept(self, n, xerces_reject=False):
+        if not (self.show >> (n.t - 1)) & 1:
+            if xerces_reject and self.fk and script_filter(self.fk, n) == FILTER_REJECT:
+                return FILTER_REJECT
+            return FILTER_SKIP
+        return script_filter(self.fk, n) if self.fk else FILTER_ACCEPT
+
+    def refers_to(self, n):
+        return _in_subtree(self.root, n) or _in_subtree(self.cur, n)
+
+
+class RangeView(ViewBase):
+    kind = 'R'
+
+    def __init__(self, doc):
+        ViewBase.__init__(self, doc)
+        self.sc = self.ec = doc
+        self.so = self.eo = 0
+        self.detached = False
+        self.insert_bug_exposed = False
+
+    # ---- section 2.12 of DOM Level 2 Range
+    def after_insert(self, m, n):
+        if self.detached:
+            return
+        p = n.parent
+        i = p.kids.index(n)
+        if p is self.sc and i < self.so:
+            self.so += 1
+        if p is self.ec and i < self.eo:
+            self.eo += 1
+
+    def before_remove(self, m, n):
+        if self.detached:
+            return
+        p = n.parent
+        i = p.kids.index(n)
+        if _is_anc_or_self(n, self.sc):
+            self.sc, self.so = p, i
+        elif p is self.sc and self.so > i:
+            self.so -= 1
+        if _is_anc_or_self(n, self.ec):
+            self.ec, self.eo = p, i
+        elif p is self.ec and self.eo > i:
+            self.eo -= 1
+
+    def text_changed(self, m, n, kind, off, cnt, ins):
+        if self.detached:
+            return
+        for which in ('s', 'e'):
+            c, o = (self.sc, self.so) if which == 's' else (self.ec, self.eo)
+            if c is not n:
+                continue
+            if kind == 'replace-all':
+                o = 0
+            elif kind == 'delete':
+                if o > off + cnt:
+                    o -= cnt
+                elif o > off:
+                    o = off
+            elif kind == 'insert':
+                if o > off:
+                    if which == 's' and 'range-insertData-start-not-shifted' in m.quirk:
+                        o = off
+                    else:
+                        o += ins
+            if which == 's':
+                self.so = o
+            else:
+                self.eo = o
+
+    def text_split(self, m, old, new, off):
+        if self.detached:
+            return
+        if self.sc is old and self.so > off:
+            self.sc, self.so = new, self.so - off
+        if self.ec is old and self.eo > off:
+            self.ec, self.eo = new, self.eo - off
+
+    def refers_to(self, n):
+        return (not self.detached) and (_in_subtree(self.sc, n) or _in_subtree(self.ec, n))
+
+
+def _is_anc_or_self(a, b):
+    while b is not None:
+        if b is a:
+            return True
+        b = b.parent
+    return False
+
+
+def node_length(n):
+    return len(n.data) if n.t in CHARDATA_TYPES else len(n.kids)
+
+
+def cmp_points(ac, ao, bc, bo):
+    """-1 / 0 / 1: boundary point A before / equal / after boundary point B (same root assumed)"""
+    if ac is bc:
+        return (ao > bo) - (ao < bo)
+    # is B inside a child of A's container?
+    x = bc
+    while x is not None and x.parent is not ac:
+        x = x.parent
+    if x is not None:
+        return -1 if ao <= ac.kids.index(x) else 1
+    x = ac
+    while x is not None and x.parent is not bc:
+        x = x.parent
+    if x is not None:
+        return -1 if bc.kids.index(x) < bo else 1
+    # general case: document order of the containers
+    ca, cb = [], []
+    x = ac
+    while x is not None:
+        ca.append(x); x = x.parent
+    x = bc
+    while x is not None:
+        cb.append(x); x = x.parent
+    ca.reverse(); cb.reverse()
+    if ca[0] is not cb[0]:
+        raise Undecided('boundary points in different trees')
+    i = 0
+    while i < len(ca) and i < len(cb) and ca[i] is cb[i]:
+        i += 1
+    p = ca[i - 1]
+    return -1 if p.kids.index(ca[i]) < p.kids.index(cb[i]) else 1
+
+
+def _root_of(n):
+    while n.parent is not None:
+        n = n.parent
+    return n
+
+
+def _view(m, vid, kind):
+    v = m.views.get(vid)
+    if v is None or v.kind != kind:
+        raise KeyError('v%s' % vid)
+    return v
+
+
+def _op_mkIter(self, want, vid, root, show, fk, expand):
+    e = Exp()
+    self.views[vid] = IterView(root.docnode(), root, show, fk)
+    e.cls = TYPE_NAMES[root.t]
+    return e
+
+
+def _op_mkWalker(self, want, vid, root, show, fk, expand):
+    e = Exp()
+    self.views[vid] = WalkerView(root.docnode(), root, show, fk)
+    e.cls = TYPE_NAMES[root.t]
+    return e
+
+
+def _op_it(self, want, vid, what):
+    e = Exp()
+    v = _view(self, vid, 'I')
+    if what in ('detach', 'release'):
+        if what == 'detach' and v.detached:
+            e.res = None
+        v.detached = True
+        if what == 'release':
+            del self.views[vid]
+        e.cls = what
+        return e
+    if what == 'root':
+        e.res = self.ref(v.root)
+        return e
+    if v.detached:
+        e.codes = {INVALID_STATE}; e.cls = 'detached'
+        return e
+    root = v.root
+    e.cls = what
+    if what == 'next':
+        if v.ref is None:
+            cand = root
+        elif not v.after:
+            cand = v.ref
+        else:
+            cand = doc_order_next(v.ref, root)
+        while cand is not None and not v.accept(cand):
+            cand = doc_order_next(cand, root)
+        if cand is not None:
+            v.ref, v.after = cand, True
+        elif v.ref is not None and not v.after:
+            v.after = True          # (Xerces flips the direction flag even when nothing is returned; unobservable with stable filters)
+        e.res = self.ref(cand)
+        return e
+    if what == 'prev':
+        if v.ref is None:
+            e.res = 'null'
+            return e
+        cand = v.ref if v.after else doc_order_prev(v.ref, root)
+        while cand is not None and not v.accept(cand):
+            cand = doc_order_prev(cand, root)
+        if cand is not None:
+            v.ref, v.after = cand, False
+        else:
+            v.after = False
+        e.res = self.ref(cand)
+        return e
+    raise Undecided('iterator op ' + what)
+
+
+# ---- TreeWalker (the algorithms of the DOM Traversal text as later spelled out by DOM4)
+def _tw_inside(v):
+    x = v.cur
+    while x is not None:
+        if x is v.root:
+            return True
+        x = x.parent
+    return False
+
+
+def _tw_children(v, first, q):
+    node = v.cur
+    node = (node.kids[0] if first else node.kids[-1]) if node.kids else None
+    while node is not None:
+        r = v.accept(node, q)
+        if r == FILTER_ACCEPT:
+            return node
+        if r == FILTER_SKIP and node.kids:
+            node = node.kids[0] if first else node.kids[-1]
+            continue
+        while node is not None:
+            sib = node.next() if first else node.prev()
+            if sib is not None:
+                node = sib
+                break
+            parent = node.parent
+            if parent is None or parent is v.root or parent is v.cur:
+                return None
+            node = parent
+    return None
+
+
+def _tw_siblings(v, nxt, q):
+    node = v.cur
+    if node is v.root:
+        return None
+    while True:
+        sib = node.next() if nxt else node.prev()
+        while sib is not None:
+            node = sib
+            r = v.accept(node, q)
+            if r == FILTER_ACCEPT:
+                return node
+            sib = (node.kids[0] if nxt else node.kids[-1]) if node.kids else None
+            if r == FILTER_REJECT or sib is None:
+                sib = node.next() if nxt else node.prev()
+        node = node.parent
+        if node is None or node is v.root:
+            return None
+        if v.accept(node, q) == FILTER_ACCEPT:
+            return None
+
+
+def _op_tw(self, want, vid, what, *a):
+    e = Exp()
+    v = _view(self, vid, 'W')
+    e.cls = what
+    q = 'treewalker-hidden-node-filter-reject' in self.quirk
+    if what == 'release':
+        del self.views[vid]
+        return e
+    if what == 'cur':
+        e.res = self.ref(v.cur)
+        return e
+    if what == 'root':
+        e.res = self.ref(v.root)
+        return e
+    if what == 'set':
+        v.cur = a[0]
+        return e
+    if not _tw_inside(v):
+        raise Undecided('current node outside the root of the TreeWalker')
+    # are hidden-by-whatToShow nodes that the filter would REJECT around?  (deviation class)
+    res = None
+    if what == 'parent':
+        node = v.cur
+        while node is not None and node is not v.root:
+            node = node.parent
+            if node is not None and v.accept(node, q) == FILTER_ACCEPT:
+                res = node
+                break
+    elif what in ('first', 'last'):
+        res = _tw_children(v, what == 'first', q)
+    elif what in ('nextSib', 'prevSib'):
+        res = _tw_siblings(v, what == 'nextSib', q)
+    elif what == 'next':
+        node = v.cur
+        r = FILTER_ACCEPT
+        while True:
+            found = False
+            while r != FILTER_REJECT and node.kids:
+                node = node.kids[0]
+                r = v.accept(node, q)
+                if r == FILTER_ACCEPT:
+                    res = node; found = True
+                    break
+            if found:
+                break
+            sib = None
+            tmp = node
+            while tmp is not None:
+                if tmp is v.root:
+                    break
+                sib = tmp.next()
+                if sib is not None:
+                    break
+                tmp = tmp.parent
+            if sib is None:
+                break
+            node = sib
+            r = v.accept(node, q)
+            if r == FILTER_ACCEPT:
+                res = node
+                break
+    elif what == 'prev':
+        node = v.cur
+        while node is not v.root:
+            sib = node.prev()
+            descended = False
+            while sib is not None:
+                node = sib
+                r = v.accept(node, q)
+                while r != FILTER_REJECT and node.kids:
+                    node = node.kids[-1]
+                    r = v.accept(node, q)
+                if r == FILTER_ACCEPT:
+                    res = node
+                    break
+                sib = node.prev()
+            if res is not None:
+                break
+            if node is v.root or node.parent is None:
+                break
+            node = node.parent
+            if v.accept(node, q) == FILTER_ACCEPT:
+                res = node
+                break
+        if res is not None and 'treewalker-previousNode-one-level' in self.quirk:
+            pass
+    else:
+        raise Undecided('walker op ' + what)
+    if res is not None:
+        v.cur = res
+    e.res = self.ref(res)
+    return e
+
+
+def _op_mkList(self, want, vid, how, n, a=None, b=None):
+    e = Exp()
+    if how in ('tag', 'tagNS') and n.t not in (ELEMENT, DOC):
+        raise Undecided('deep node list on a non-element')
+    self.views[vid] = ListView(n.docnode(), how, n, a, b)
+    e.cls = how
+    return e
+
+
+def _op_list(self, want, vid, what, *a):
+    e = Exp()
+    v = _view(self, vid, 'L')
+    e.cls = v.how + '-' + what
+    if what == 'drop':
+        del self.views[vid]
+        return e
+    ns = v.nodes()
+    if what == 'len':
+        e.res = 'i:%d' % len(ns)
+    elif what == 'item':
+        i = a[0]
+        e.res = self.ref(ns[i]) if 0 <= i < len(ns) else 'null'
+    elif what == 'all':
+        e.res = 'l:%d:%s' % (len(ns), ','.join(self.ref(x) for x in ns))
+    return e
+
+
+def _op_mkMap(self, want, vid, el):
+    e = Exp()
+    if el.t != ELEMENT:
+        e.res = 'null'
+        return e
+    self.views[vid] = MapView(el.docnode(), el)
+    return e
+
+
+def _op_map(self, want, vid, what, *a):
+    e = Exp()
+    v = _view(self, vid, 'M')
+    e.cls = what
+    el = v.el
+    if what == 'drop':
+        del self.views[vid]
+    elif what == 'len':
+        e.res = 'i:%d' % len(el.attrs)
+    elif what == 'get':
+        e.res = self.ref(self._attr_by_name(el, a[0]))
+    elif what == 'getNS':
+        e.res = self.ref(self._attr_by_ns(el, a[0], a[1]))
+    elif what == 'names':
+        names = sorted(esc(x.name) + '=' + esc(attr_value(x)) for x in el.attrs)
+        e.res = 'l:%d:%s' % (len(names), ','.join(names))
+    return e
+
+
+# ---- Range
+def _op_mkRange(self, want, vid, doc):
+    e = Exp()
+    self.views[vid] = RangeView(doc)
+    return e
+
+
+def _rg_check_container(n):
+    """INVALID_NODE_TYPE_ERR when n or an ancestor is an Entity, Notation or DocumentType"""
+    x = n
+    while x is not None:
+        if x.t in (ENTITY, NOTATION, DOCTYPE):
+            return True
+        x = x.parent
+    return False
+
+
+def _rg_set(self, v, which, c, o):
+    """set one boundary point, collapsing as DOM L2 Range 2.5 prescribes"""
+    if which == 's':
+        v.sc, v.so = c, o
+        if _root_of(v.ec) is not _root_of(c) or cmp_points(v.sc, v.so, v.ec, v.eo) > 0:
+            v.ec, v.eo = c, o
+    else:
+        v.ec, v.eo = c, o
+        if _root_of(v.sc) is not _root_of(c) or cmp_points(v.sc, v.so, v.ec, v.eo) > 0:
+            v.sc, v.so = c, o
+
+
+def _rg_state(self, v):
+    return 'r:%s,%d,%s,%d,%d' % (self.ref(v.sc), v.so, self.ref(v.ec), v.eo, 1 if (v.sc is v.ec and v.so == v.eo) else 0)
+
+
+def _clone_for_range(self, n, deep, e):
+    return self._clone(n, deep, e)
+
+
+def _op_rg(self, want, vid, what, *a):
+    e = Exp()
+    v = _view(self, vid, 'R')
+    e.cls = what
+    if what == 'release':
+        del self.views[vid]
+        return e
+    if v.detached:
+        e.codes = {INVALID_STATE}; e.cls = what + '-detached'
+        return e
+    if what == 'detach':
+        v.detached = True
+        return e
+    if what == 'get':
+        if any(x.h is None for x in (v.sc, v.ec)):
+            e.res = None
+        e.res = _rg_state(self, v)
+        return e
+    if what == 'cac':
+        x = set()
+        n = v.sc
+        while n is not None:
+            x.add(id(n)); n = n.parent
+        n = v.ec
+        while n is not None and id(n) not in x:
+            n = n.parent
+        e.res = self.ref(n)
+        return e
+    if what in ('setStart', 'setEnd'):
+        c, o = a
+        errs = set()
+        if _rg_check_container(c):
+            errs.add(INVALID_NODE_TYPE)
+        if o > node_length(c):
+            errs.add(INDEX_SIZE)
+        if c.docnode() is not v.doc:
+            errs.add(WRONG_DOC)
+        if errs:
+            e.codes = errs
+            if WRONG_DOC in errs and len(errs) == 1:
+                # Xerces collapses the range before raising WRONG_DOCUMENT_ERR: unobservable when it was collapsed already
+                raise Undecided('setStart/End with a foreign node')
+            return e
+        _rg_set(self, v, 's' if what == 'setStart' else 'e', c, o)
+        return e
+    if what in ('setStartBefore', 'setStartAfter', 'setEndBefore', 'setEndAfter', 'selectNode'):
+        n = a[0]
+        errs = set()
+        if _rg_check_container(n) or n.t in (DOC, FRAG, ATTR, ENTITY, NOTATION):
+            errs.add(INVALID_NODE_TYPE)
+        if what != 'selectNode' and _root_of(n).t not in (ATTR, DOC, FRAG):
+            errs.add(INVALID_NODE_TYPE)
+        if n.docnode() is not v.doc:
+            errs.add(WRONG_DOC)
+        if errs:
+            if WRONG_DOC in errs and len(errs) == 1:
+                raise Undecided('range setter with a foreign node')
+            e.codes = errs
+            return e
+        if n.parent is None:
+            raise Undecided('range setter on a parentless node')
+        p, i = n.parent, n.index()
+        if what == 'selectNode':
+            if n.t in CHARDATA_TYPES:
+                e.quirks.append('range-selectNode-chardata-selects-contents')
+                e.cls = 'selectNode-chardata'
+                if 'range-selectNode-chardata-selects-contents' in self.quirk:
+                    v.sc = v.ec = n
+                    v.so, v.eo = 0, len(n.data)
+                    return e
+            v.sc = v.ec = p
+            v.so, v.eo = i, i + 1
+            return e
+        o = i if what.endswith('Before') else i + 1
+        _rg_set(self, v, 's' if what.startswith('setStart') else 'e', p, o)
+        return e
+    if what == 'selectNodeContents':
+        n = a[0]
+        if _rg_check_container(n):
+            e.codes = {INVALID_NODE_TYPE}
+            return e
+        if n.docnode() is not v.doc and n is not v.doc:
+            raise Undecided('selectNodeContents with a foreign node')
+        v.sc = v.ec = n
+        v.so, v.eo = 0, node_length(n)
+        return e
+    if what == 'collapse':
+        if a[0]:
+            v.ec, v.eo = v.sc, v.so
+        else:
+            v.sc, v.so = v.ec, v.eo
+        return e
+    if what == 'cmp':
+        how, vid2 = a
+        o = _view(self, vid2, 'R')
+        if o.detached:
+            raise Undecided('compare with a detached range')
+        if o.doc is not v.doc:
+            e.codes = {WRONG_DOC}
+            return e
+        pa = {0: (v.sc, v.so), 1: (v.ec, v.eo), 2: (v.ec, v.eo), 3: (v.sc, v.so)}[how]
+        pb = {0: (o.sc, o.so), 1: (o.sc, o.so), 2: (o.ec, o.eo), 3: (o.ec, o.eo)}[how]
+        if _root_of(pa[0]) is not _root_of(pb[0]):
+            raise Undecided('boundary points in different trees')
+        e.res = 'i:%d' % cmp_points(pa[0], pa[1], pb[0], pb[1])
+        return e
+    if what == 'toString':
+        e.res = 's:' + esc(_rg_tostring(v))
+        return e
+    if what == 'cloneRange':
+        nv = RangeView(v.doc)
+        nv.sc, nv.so, nv.ec, nv.eo = v.sc, v.so, v.ec, v.eo
+        self.views[a[0]] = nv
+        return e
+    if what in ('delete', 'extract', 'cloneContents'):
+        frag = _rg_contents(self, v, what, e)
+        if frag is not None:
+            e.res = self.result(frag, want)
+        return e
+    if what == 'insertNode':
+        return _rg_insert(self, v, a[0], e)
+    if what == 'surround':
+        return _rg_surround(self, v, a[0], e)
+    raise Undecided('range op ' + what)
+
+
+def _rg_tostring(v):
+    """concatenation of the character data of Text / CDATASection nodes inside the range (DOM L2 Range 2.10)"""
+    if v.sc is v.ec and v.so == v.eo:
+        return ''
+    out = []
+    root = _root_of(v.sc)
+    n = root
+    while n is not None:
+        if n.t in (TEXT, CDATA):
+            ln = len(n.data)
+            # portion of n inside the range
+            lo, hi = 0, ln
+            if cmp_points(n, ln, v.sc, v.so) <= 0 or cmp_points(n, 0, v.ec, v.eo) >= 0:
+                pass
+            else:
+                if n is v.sc:
+                    lo = v.so
+                if n is v.ec:
+                    hi = v.eo
+                out.append(n.data[lo:hi])
+        n = doc_order_next(n, root)
+    return ''.join(out)
+
+
+def _range_extract(self, v, sc, so, ec, eo, what, e):
+    """delete / extract / clone the content between two boundary points of one tree (DOM L2 Range 2.7-2.8).
+    Returns (fragment or None, new collapsed position)."""
+    mutate = what != 'cloneContents'
+    frag = None
+    if what != 'delete':
+        frag = self.mk(FRAG, v.doc)
+        frag.origin = 'range'
+
+    def add(parent, node):
+        if parent is not None and node is not None:
+            parent.kids.append(node)
+            node.parent = parent
+
+    if sc is ec and so == eo:
+        return frag, (sc, so)
+    if sc is ec and sc.t in CHARDATA_TYPES:
+        if frag is not None:
+            c = self._clone(sc, False, e)
+            c.data = sc.data[so:eo]
+            c.origin = 'range'
+            add(frag, c)
+        if mutate:
+            self._set_data(sc, sc.data[:so] + sc.data[eo:], 'delete', so, eo - so, 0)
+        return frag, (sc, so)
+    anc = set()
+    n = sc
+    while n is not None:
+        anc.add(id(n))
+        n = n.parent
+    common = ec
+    while id(common) not in anc:
+        common = common.parent
+    first_partial = None
+    if not _is_anc_or_self(sc, ec):
+        first_partial = sc
+        while first_partial.parent is not common:
+            first_partial = first_partial.parent
+    last_partial = None
+    if not _is_anc_or_self(ec, sc):
+        last_partial = ec
+        while last_partial.parent is not common:
+            last_partial = last_partial.parent
+    contained = [k for k in common.kids
+                 if cmp_points(common, k.index(), sc, so) >= 0 and cmp_points(common, k.index() + 1, ec, eo) <= 0]
+    if _is_anc_or_self(sc, ec):
+        newpos = (sc, so)
+    else:
+        ref = sc
+        while ref.parent is not None and not _is_anc_or_self(ref.parent, ec):
+            ref = ref.parent
+        newpos = (ref.parent, ref.index() + 1)
+
+    def partial(node, first):
+        if node.t in CHARDATA_TYPES:
+            c = None
+            if first:
+                if frag is not None:
+                    c = self._clone(node, False, e); c.data = node.data[so:]; c.origin = 'range'
+                if mutate:
+                    self._set_data(node, node.data[:so], 'delete', so, len(node.data) - so, 0)
+            else:
+                if frag is not None:
+                    c = self._clone(node, False, e); c.data = node.data[:eo]; c.origin = 'range'
+                if mutate:
+                    self._set_data(node, node.data[eo:], 'delete', 0, eo, 0)
+            return c
+        c = None
+        if frag is not None:
+            c = self._clone(node, False, e)
+            c.origin = 'range'
+        if first:
+            sub, _ = _range_extract(self, v, sc, so, node, len(node.kids), what, e)
+        else:
+            sub, _ = _range_extract(self, v, node, 0, ec, eo, what, e)
+        if c is not None and sub is not None:
+            for k in list(sub.kids):
+                sub.kids.remove(k)
+                add(c, k)
+        return c
+
+    if first_partial is not None:
+        add(frag, partial(first_partial, True))
+    for k in contained:
+        if not mutate:
+            add(frag, self._clone(k, True, e))
+        else:
+            self._detach(k)
+            add(frag, k)
+    if last_partial is not None:
+        add(frag, partial(last_partial, False))
+    return frag, newpos
+
+
+def _rg_contents(self, v, what, e):
+    sc, so, ec, eo = v.sc, v.so, v.ec, v.eo
+    if _root_of(sc) is not _root_of(ec):
+        raise Undecided('range over two trees')
+    touched = _rg_nodes_touched(v)
+    if any(x.t == DOCTYPE for x in touched):
+        raise Undecided('doctype inside a range')
+    if what != 'cloneContents' and any(x.ro for x in touched):
+        raise Undecided('range contents with read-only nodes')
+    e.cls = what + ('-collapsed' if (sc is ec and so == eo) else ('-same-container' if sc is ec else '-general'))
+    frag, newpos = _range_extract(self, v, sc, so, ec, eo, what, e)
+    if what != 'cloneContents':
+        v.sc, v.so = newpos
+        v.ec, v.eo = newpos
+    return frag
+
+
+def _rg_nodes_touched(v):
+    """all nodes at least partially inside the range (containers, ancestors up to the common ancestor, contained subtrees)"""
+    out = []
+    root = _root_of(v.sc)
+    n = root
+    while n is not None:
+        ln = node_length(n)
+        if not (cmp_points(n, ln, v.sc, v.so) < 0 or cmp_points(n, 0, v.ec, v.eo) > 0):
+            out.append(n)
+        n = doc_order_next(n, root)
+    return out
+
+
+def _rg_insert(self, v, new, e):
+    raise Undecided('insertNode not modelled yet')
+
+
+def _rg_surround(self, v, new, e):
+    raise Undecided('surroundContents not modelled yet')
+
+
+Model.op_mkIter = _op_mkIter
+Model.op_mkWalker = _op_mkWalker
+Model.op_it = _op_it
+Model.op_tw = _op_tw
+Model.op_mkList = _op_mkList
+Model.op_list = _op_list
+Model.op_mkMap = _op_mkMap
+Model.op_map = _op_map
+Model.op_mkRange = _op_mkRange
+Model.op_rg = _op_rg
+
+# signatures of the view operations (v: view number, w: word); sub-operations refine the tail
+SIG.update({'mkIter': 'vniib', 'mkWalker': 'vniib', 'it': 'vw', 'tw': 'vw', 'mkList': 'vwnss', 'list': 'vw', 'mkMap': 'vn', 'map': 'vw',
+            'mkRange': 'vd', 'rg': 'vw'})
+SUBSIG = {
+    ('tw', 'set'): 'n', ('list', 'item'): 'i', ('map', 'get'): 's', ('map', 'getNS'): 'ss',
+    ('rg', 'setStart'): 'ni', ('rg', 'setEnd'): 'ni', ('rg', 'setStartBefore'): 'n', ('rg', 'setStartAfter'): 'n', ('rg', 'setEndBefore'): 'n',
+    ('rg', 'setEndAfter'): 'n', ('rg', 'selectNode'): 'n', ('rg', 'selectNodeContents'): 'n', ('rg', 'collapse'): 'b', ('rg', 'cmp'): 'iv',
+    ('rg', 'insertNode'): 'n', ('rg', 'surround'): 'n', ('rg', 'cloneRange'): 'v',
+}
+
+
+def sig_for(name, args):
+    sig = SIG[name]
+    if name in ('tw', 'list', 'map', 'rg', 'it') and len(args) > 1:
+        sig = sig + SUBSIG.get((name, args[1]), '')
+    return sig
